@@ -144,12 +144,25 @@ func TestVerifDriver(t *testing.T) {
 
 	v := &vLB{fl: map[string]*vReq{}, arrived: make(chan struct{}, 1), release: make(chan int, 1)}
 	v.health = httptest.NewServer(http.HandlerFunc(func(w http.ResponseWriter, r *http.Request) {
+		// code -1: the probe fails in transport (the connection is cut before any answer)
+		answer := func(code int) {
+			if code < 0 {
+				if hj, ok := w.(http.Hijacker); ok {
+					if c, _, err := hj.Hijack(); err == nil {
+						_ = c.Close()
+						return
+					}
+				}
+				code = 500
+			}
+			w.WriteHeader(code)
+		}
 		if v.holdProbe.CompareAndSwap(true, false) { // exactly one request is held
 			v.arrived <- struct{}{}
-			w.WriteHeader(<-v.release)
+			answer(<-v.release)
 			return
 		}
-		w.WriteHeader(int(atomic.LoadInt32(&v.probeCode)))
+		answer(int(atomic.LoadInt32(&v.probeCode)))
 	}))
 	defer v.health.Close()
 
@@ -330,6 +343,45 @@ func (v *vLB) op(w []string) string {
 			return fmt.Sprintf("INCOMPLETE %d of %d concurrent picks found no backend", nils, workers*k)
 		}
 		return "complete"
+	case "ejectrace":
+		// ejectrace <now> <rounds> : the lazy expiry check of a backend whose window has elapsed
+		// races a fresh ejection of the same backend; whichever critical section runs second, the
+		// backend must end ejected (last op of an episode: the backend stays ejected)
+		if len(w) != 3 {
+			return "bad-op"
+		}
+		verifclock.Set(atoi64(w[1]))
+		bs := v.lb.strategy.GetBackends()
+		rounds := atoi(w[2])
+		if len(bs) == 0 || rounds < 1 || rounds > 1000000 {
+			return "n/a"
+		}
+		b := bs[0]
+		lost := 0
+		for r := 0; r < rounds && lost == 0; r++ {
+			b.Mutex.Lock()
+			b.IsHealthy = false
+			b.UnhealthyUntil = verifclock.Now().Add(-time.Second)
+			b.Mutex.Unlock()
+			var ready, wg sync.WaitGroup
+			gate := make(chan struct{})
+			ready.Add(2)
+			wg.Add(2)
+			go func() { defer wg.Done(); ready.Done(); <-gate; v.lb.IsBackendHealthy(b) }()
+			go func() { defer wg.Done(); ready.Done(); <-gate; v.lb.MarkBackendUnhealthy(b, time.Hour) }()
+			ready.Wait()
+			close(gate)
+			wg.Wait()
+			b.Mutex.RLock()
+			if b.IsHealthy {
+				lost++
+			}
+			b.Mutex.RUnlock()
+		}
+		if lost > 0 {
+			return "LOST-EJECTION a backend ejected for an hour is marked healthy by a concurrent expiry check"
+		}
+		return "consistent"
 	case "affconc":
 		// affconc <now> <workers> <k> : every worker is one client address; its pick is taken once
 		// with nobody else running and must then come back on every one of k picks made while the
@@ -479,9 +531,12 @@ func (v *vLB) op(w []string) string {
 			return "nobackend"
 		}
 		verifclock.Set(atoi64(w[2]))
-		if w[3] == "ok" {
+		switch w[3] {
+		case "ok":
 			atomic.StoreInt32(&v.probeCode, 200)
-		} else {
+		case "err":
+			atomic.StoreInt32(&v.probeCode, -1)
+		default:
 			atomic.StoreInt32(&v.probeCode, 500)
 		}
 		v.lb.checkBackendHealth(b)
@@ -521,7 +576,11 @@ func (v *vLB) op(w []string) string {
 		}
 		verifclock.Set(atoi64(w[2]))
 		code := 200
-		if w[3] != "ok" {
+		if w[3] == "err" {
+			code = -1
+			// the client retries a request whose reused connection was cut: cut the retry too
+			atomic.StoreInt32(&v.probeCode, -1)
+		} else if w[3] != "ok" {
 			code = 500
 		}
 		v.release <- code
